@@ -17,7 +17,7 @@ NAMED = ["largest", "smallest", "eps", "posinf", "neginf", "smallest_subnormal"]
 
 UPSORT = {"f16": "f32", "f32": "f64"}
 DOWNSORT = {"f64": "f32", "f32": "f16"}
-TYPENAME = {"f16": "float16", "f32": "float32", "f64": "float64", "f": "float", "c64": "complex64", "c128": "complex128", "b": "boolean"}
+TYPENAME = {"f16": "float16", "f32": "float32", "f64": "float64", "f": "float", "c64": "complex64", "c128": "complex128", "c": "complex", "b": "boolean"}
 
 CONSTS = [
     ["int", 0],
@@ -69,6 +69,7 @@ def programs(
     extra_unary=(),
     extra_binary=(),
     root_sorts=None,
+    complex_sorts=("c64", "c128"),
 ):
     T = draw(st.sampled_from(list(main_sorts)))
     nsym = draw(st.integers(1, 3))
@@ -88,7 +89,7 @@ def programs(
         syms.append(["xyz"[i], TYPENAME[s]])
         add(["sym", i], s)
     if complex_ok and draw(st.booleans()):
-        cs = draw(st.sampled_from(["c64", "c128"]))
+        cs = draw(st.sampled_from(list(complex_sorts)))
         syms.append(["w", TYPENAME[cs]])
         add(["sym", len(syms) - 1], cs)
 
@@ -235,19 +236,19 @@ def programs(
             add(["item", L, k], sorts[a])
         elif choice == "complex" and complex_ok:
             def is_c(s):
-                return s in ("c64", "c128")
+                return s in ("c64", "c128", "c")
 
             c = pick(is_c)
             op = draw(st.sampled_from(["real", "imag", "absolute", "negative", "conjugate", "arith", "arith", "make", "const", "named", "eqne", "select", "square"]))
             if op == "make":
-                a = pick(lambda s: s in ("f32", "f64"))
+                a = pick(lambda s: s in ("f32", "f64", "f"))
                 if a is not None:
                     b = pick(lambda s: s == sorts[a])
-                    add(["complex", a, b], "c64" if sorts[a] == "f32" else "c128")
+                    add(["complex", a, b], {"f32": "c64", "f64": "c128", "f": "c"}[sorts[a]])
                 continue
             if c is None:
                 continue
-            half = "f32" if sorts[c] == "c64" else "f64"
+            half = {"c64": "f32", "c128": "f64", "c": "f"}[sorts[c]]
             if op in ("real", "imag", "absolute"):
                 add([op, c], half)
             elif op in ("negative", "conjugate", "square"):
@@ -258,7 +259,7 @@ def programs(
                     k = draw(st.sampled_from(["add", "subtract", "multiply", "divide"]))
                     wide = sorts[c] == "c128" or sorts[o] in ("c128", "f64", "f")
                     args = [c, o] if draw(st.booleans()) else [o, c]
-                    add([k] + args, "c128" if wide else "c64")
+                    add([k] + args, "c" if sorts[c] == "c" else ("c128" if wide else "c64"))
             elif op == "const":
                 add(["const", draw(st.sampled_from(CONSTS[:10])), c], sorts[c])
             elif op == "named":
@@ -316,7 +317,7 @@ def programs(
             else:
                 add([k, other, shapes[0]], "b")
     # root: prefer a late node of a value sort
-    want = root_sorts or (("f16", "f32", "f64", "f", "b") + (("c64", "c128") if complex_ok else ()))
+    want = root_sorts or (("f16", "f32", "f64", "f", "b") + (("c64", "c128", "c") if complex_ok else ()))
     cand = [i for i, s in enumerate(sorts) if s in want and i >= len(syms)]
     if not cand:
         cand = [i for i, s in enumerate(sorts) if s in want]
